@@ -297,7 +297,8 @@ struct RefsWorld : World {
 					input *in; { Sut su(failn); in = mpt_stream_input(&sk, stream::RdWr | stream::Buffer, EncodingCobs, 2); fired = g.fired; }
 					sk._id = -1;
 					lib[k] = in ? static_cast<metatype *>(in) : 0;
-					if (!lib[k]) { Sut su; close(lib_fd); }
+					// a failed creation leaves the descriptor with the caller (who closes it, as every caller in the library does): it may not have been closed already
+					if (!lib[k]) { if (simio::get(lib_fd)->closes) fail("released-twice", "mpt_stream_input failed%s and had closed the caller's descriptor, which the caller still owns", fired ? " (allocation failure)" : ""); Sut su; close(lib_fd); }
 				}
 				if (fired) st.hit("fault:allocfail");
 				lib_model[k] = lib[k] ? 1 : 0;
@@ -344,7 +345,7 @@ struct RefsWorld : World {
 				log.ev("LIB_DROP kind %d -> holders %ld, %s", k, lib_model[k], freed ? "destroyed" : "alive");
 				if (lib_model[k] > 0 && freed) fail("destroyed-early", "library object kind %d destroyed with %ld holders left", k, lib_model[k]);
 				if (lib_model[k] == 0 && !freed) fail("never-destroyed", "library object kind %d still allocated after its last reference was dropped", k);
-				if (k == 3) { int c = simio::get(lib_fd)->closes - closes_before; if ((lib_model[k] == 0) != (c >= 1)) fail(lib_model[k] ? "destroyed-early" : "never-destroyed", "stream input: descriptor closed %d time(s) with %ld holders left", c, lib_model[k]); if (c > 1) st.hit("probe:descriptor_closed_twice"); }
+				if (k == 3) { int c = simio::get(lib_fd)->closes - closes_before; if ((lib_model[k] == 0) != (c >= 1)) fail(lib_model[k] ? "destroyed-early" : "never-destroyed", "stream input: descriptor closed %d time(s) with %ld holders left", c, lib_model[k]); if (c > 1) { st.hit("probe:descriptor_closed_twice"); fail("released-twice", "stream input: its descriptor was closed %d times when the last holder let go", c); } }
 				if (lib_model[k] == 0) lib[k] = 0;
 				outcome = freed ? 2 : 1;
 				break;
